@@ -11,15 +11,20 @@ open TV TV.Driver
 /-- Model variants.  The first one is the code as it stands (all three committed repairs); a case
     must replay under it for K=ok.  The others are the code before each repair: when only one of
     those replays, the detail says which repaired defect is back. -/
-def variants : List (String × Cfg × Bool × Bool) :=
-  [ ("fixed:all", Cfg.fixed, true, true),
-    ("faithful", Cfg.faithful, false, false),
-    ("fixed:rand", Cfg.fixed, false, false),
-    ("fixed:leak", Cfg.faithful, true, false),
-    ("fixed:fin", Cfg.faithful, false, true),
-    ("fixed:rand+leak", Cfg.fixed, true, false),
-    ("fixed:rand+fin", Cfg.fixed, false, true),
-    ("fixed:leak+fin", Cfg.faithful, true, true) ]
+def variants : List (String × Cfg × Bool × Bool × Bool) :=
+  [ ("fixed:all", Cfg.fixed, true, true, true),
+    ("fixed:rand+leak+fin", Cfg.fixed, true, true, false),      -- the tree before the repair of F-C04-1
+    ("faithful", Cfg.faithful, false, false, false),
+    ("fixed:rand", Cfg.fixed, false, false, false),
+    ("fixed:leak", Cfg.faithful, true, false, false),
+    ("fixed:fin", Cfg.faithful, false, true, false),
+    ("fixed:rand+leak", Cfg.fixed, true, false, false),
+    ("fixed:rand+fin", Cfg.fixed, false, true, false),
+    ("fixed:leak+fin", Cfg.faithful, true, true, false),
+    ("fixed:writer", Cfg.faithful, false, false, true),
+    ("fixed:rand+leak+writer", Cfg.fixed, true, false, true),
+    ("fixed:rand+fin+writer", Cfg.fixed, false, true, true),
+    ("fixed:leak+fin+writer", Cfg.faithful, true, true, true) ]
 
 def splitCases (lines : List String) : List (List String) :=
   let (cur, acc) := lines.foldl (fun (st : List String × List (List String)) l =>
@@ -33,13 +38,13 @@ def runCase (prop : String) (lines : List String) : String × Bool × Bool :=
     | some l => ((l.splitOn " ").getD 1 "0")
     | none => "0"
   -- K: first variant that replays without mismatch (later variants are only tried on mismatch)
-  let rec firstOk (vs : List (String × Cfg × Bool × Bool)) : Option (String × RState) :=
+  let rec firstOk (vs : List (String × Cfg × Bool × Bool × Bool)) : Option (String × RState) :=
     match vs with
     | [] => none
-    | (name, link, leak, fin) :: rest =>
-      let st := replay lines link leak fin
+    | (name, link, leak, fin, wr) :: rest =>
+      let st := replay lines link leak fin wr
       if st.bad.isNone then some (name, st) else firstOk rest
-  let cur := replay lines Cfg.fixed true true
+  let cur := replay lines Cfg.fixed true true true
   let (kOk, vname, st) :=
     if cur.bad.isNone then (true, "fixed:all", cur) else
     match firstOk (variants.drop 1) with
